@@ -15,6 +15,8 @@ struct Ctx {
     replay_dir: String,
     corpus64: Vec<(u64, i32)>,
     corpus32: Vec<(u64, i32)>,
+    corpus64s: Vec<(u64, i32)>,
+    corpus32s: Vec<(u64, i32)>,
     binades64: HashSet<u32>,
     binades32: HashSet<u32>,
     log_boundary: u64,
@@ -260,6 +262,17 @@ impl Ctx {
     }
 
     fn corpus_case(&mut self, rng: &mut Rng, fmt: Fmt) -> Option<Case> {
+        // short-significand hard cases (pyoracle/cfshort.py) two times in five, the 19-digit ones otherwise
+        let vs = if fmt.mant_bits == 52 { &self.corpus64s } else { &self.corpus32s };
+        if !vs.is_empty() && rng.chance(2, 5) {
+            let (w, q) = vs[rng.below(vs.len() as u64) as usize];
+            let w = match rng.below(6) {
+                0 => w + 1,
+                1 => (w - 1).max(1),
+                _ => w,
+            };
+            return gen::place_random(rng, w.to_string().as_bytes(), q as i64, "CFSHORT");
+        }
         let v = if fmt.mant_bits == 52 { &self.corpus64 } else { &self.corpus32 };
         if v.is_empty() {
             return None;
@@ -276,10 +289,13 @@ impl Ctx {
         if rng.chance(1, 4) {
             let mut s2 = sig.clone();
             let k = rng.range(1, 30) as usize;
+            // a tail of nines puts the value just below the next significand (with w - 1 as the base: just below the hard
+            // case itself, so that the truncated route has to decide [w-1, w) with w the worst case)
+            let nines = rng.chance(1, 3);
             for _ in 0..k {
-                s2.push(if rng.chance(1, 2) { b'0' } else { rng.digit() });
+                s2.push(if nines { b'9' } else if rng.chance(1, 2) { b'0' } else { rng.digit() });
             }
-            return gen::place_random(rng, &s2, q as i64 - k as i64, "CFHARD+");
+            return gen::place_random(rng, &s2, q as i64 - k as i64, if nines { "CFHARD+9s" } else { "CFHARD+" });
         }
         gen::place_random(rng, &sig, q as i64, "CFHARD")
     }
@@ -466,6 +482,108 @@ fn mode_f32_midpoints(ctx: &mut Ctx, stride: u64, shard: (u64, u64), frac_of_bud
     true
 }
 
+/// Exactly rounded f32 of w x 10^q for 0 < w < 2^32 and |q| <= 22, with u128 integer arithmetic only (no float
+/// operation, no big integers): an independent fast oracle for the bounded-exhaustive sweep below.
+fn f32_of_short(w: u64, q: i32) -> u32 {
+    debug_assert!(w > 0 && w < (1u64 << 32) && q.abs() <= 22);
+    // value = n / d * 2^e2 exactly, then reduce to a 24-bit significand with round-half-even (sticky from the remainder)
+    let p10 = 10u128.pow(q.unsigned_abs());
+    let (num, den): (u128, u128) = if q >= 0 { (w as u128 * p10, 1) } else { (w as u128, p10) };
+    // scale so that the integer quotient has at least 26 bits
+    let lnum = 128 - num.leading_zeros() as i32;
+    let lden = 128 - den.leading_zeros() as i32;
+    let s = (26 + lden - lnum).max(0); // left shift of the numerator (q >= 0: den = 1)
+    debug_assert!(lnum + s <= 127);
+    let quo = (num << s) / den;
+    let sticky = (num << s) % den != 0;
+    // value = quo * 2^-s (+ sticky)
+    let l = 128 - quo.leading_zeros() as i32; // >= 26, or exact small integer when q >= 0 and s == 0
+    let (mut m, mut e2): (u128, i32);
+    if l <= 24 {
+        m = quo;
+        e2 = -s;
+        debug_assert!(!sticky);
+    } else {
+        let drop = l - 24;
+        m = quo >> drop;
+        let rem = quo & ((1u128 << drop) - 1);
+        let half = 1u128 << (drop - 1);
+        e2 = drop - s;
+        if rem > half || (rem == half && (sticky || m & 1 == 1)) {
+            m += 1;
+        }
+        if m == 1 << 24 {
+            m >>= 1;
+            e2 += 1;
+        }
+    }
+    // normalise m to [2^23, 2^24)
+    while m < (1 << 23) {
+        m <<= 1;
+        e2 -= 1;
+    }
+    let biased = e2 + 23 + 127;
+    debug_assert!(biased > 0 && biased < 255);
+    ((biased as u32) << 23) | (m as u32 & 0x7f_ffff)
+}
+
+/// C02, bounded-exhaustive: EVERY decimal w x 10^q with 0 < w < 2^32 (all inputs of up to 9 digits and 43 % of the
+/// 10-digit ones) and q in [-22, 22] (or every `stride`-th w), parsed as f32 and compared with exact integer rounding.
+/// This is the territory of fast paths and of shortcuts through wider types, where a double rounding shows on a few
+/// dozen inputs out of 10^11. A mismatch is confirmed by the full oracle before it is reported.
+fn mode_f32_short_sweep(ctx: &mut Ctx, rng: &mut Rng, stride: u64, shard: (u64, u64), frac_of_budget: f64) -> bool {
+    let until = ctx.rep.start + (ctx.rep.deadline - ctx.rep.start).mul_f64(frac_of_budget);
+    let total: u64 = 1 << 32;
+    let per = (total / stride + shard.1) / shard.1;
+    let (k0, k1) = (shard.0 * per, ((shard.0 + 1) * per).min(total / stride + 1));
+    let offset = if stride > 1 { rng.below(stride) } else { 0 };
+    let mut n = 0u64;
+    let mut buf = [0u8; 10];
+    let mut k = k0;
+    while k < k1 {
+        if k % 4096 == 0 && std::time::Instant::now() >= until {
+            ctx.rep.add("short_sweep.cases", n);
+            return false;
+        }
+        let w = k * stride + offset;
+        k += 1;
+        if w == 0 || w >= total {
+            continue;
+        }
+        // decimal digits of w
+        let mut i = 10;
+        let mut t = w;
+        while t > 0 {
+            i -= 1;
+            buf[i] = b'0' + (t % 10) as u8;
+            t /= 10;
+        }
+        let digits = &buf[i..];
+        for q in -22i32..=22 {
+            let got = minimal_lexical::parse_float::<f32, _, _>(digits.iter(), [].iter(), q).to_bits();
+            let want = f32_of_short(w, q);
+            n += 1;
+            if got != want {
+                let c = Case::new(digits, b"", q, "SHORT_SWEEP");
+                ctx.rep.count("short_sweep.mismatch_with_integer_oracle");
+                ctx.judge(F32, &c);
+                // the two oracles must agree with each other
+                if oracle::check(&c.dec(), F32, want as u64) == false {
+                    ctx.rep.inconclusive(&format!("ORACLE-DISAGREEMENT: integer oracle says {:08x} for {}e{}, the digit-string oracle rejects it", want, w, q));
+                }
+            }
+        }
+        if k % 65_521 == 0 {
+            // keep the two oracles honest against each other on a sample of agreeing cases too
+            let c = Case::new(digits, b"", -22 + (k % 45) as i32, "SHORT_SWEEP");
+            ctx.judge(F32, &c);
+        }
+    }
+    ctx.rep.add("short_sweep.cases", n);
+    ctx.rep.evals += n;
+    true
+}
+
 fn flush_paths(ctx: &mut Ctx, paths: &[u64; 6]) {
     for (i, k) in ["midpoints.path.fast", "midpoints.path.slow_neg", "midpoints.path.slow_pos", "midpoints.path.moderate", "midpoints.path.other", "midpoints.sticky_digit"].iter().enumerate() {
         ctx.rep.add(k, paths[i]);
@@ -574,6 +692,13 @@ fn mode_oracle(ctx: &mut Ctx, args: &Args, rng: &mut Rng, shard: (u64, u64)) {
             let done = mode_f32_midpoints(ctx, stride, shard, frac);
             ctx.rep.extra.insert("f32_midpoint_stride".into(), format!("{}", stride));
             ctx.rep.extra.insert("f32_midpoint_range_completed".into(), format!("{}", done));
+        }
+        if let Some(st) = args.get("short-sweep") {
+            let stride: u64 = st.parse().expect("--short-sweep <stride>");
+            let frac = args.f64("short-sweep-budget", 0.3);
+            let done = mode_f32_short_sweep(ctx, rng, stride, shard, frac);
+            ctx.rep.extra.insert("f32_short_sweep_stride".into(), format!("{}", stride));
+            ctx.rep.extra.insert("f32_short_sweep_range_completed".into(), format!("{}", done));
         }
     }
     // systematic sweep first: every binade of each format x {midpoint, exact value} x all seven variants
@@ -1418,6 +1543,8 @@ fn main() {
         replay_dir: args.str("replay-dir", "/verif/replays"),
         corpus64: args.get("corpus64").map(gen::read_corpus).unwrap_or_default(),
         corpus32: args.get("corpus32").map(gen::read_corpus).unwrap_or_default(),
+        corpus64s: args.get("corpus64s").map(gen::read_corpus).unwrap_or_default(),
+        corpus32s: args.get("corpus32s").map(gen::read_corpus).unwrap_or_default(),
         binades64: HashSet::new(),
         binades32: HashSet::new(),
         log_boundary: 0,
